@@ -493,6 +493,12 @@ func parent(id, tier string) int {
 	// Replays.
 	var replayPaths []string
 	os.MkdirAll(filepath.Join(vd, "replays"), 0o755)
+	// replay files of earlier runs of this check with this tier and seed are stale now
+	if old, _ := filepath.Glob(filepath.Join(vd, "replays", fmt.Sprintf("%s-%s-s%d-*.json", id, tier, seed))); old != nil {
+		for _, f := range old {
+			os.Remove(f)
+		}
+	}
 	for i, v := range real {
 		if i >= 10 {
 			break
